@@ -398,16 +398,20 @@ def solve(hyps, goal_negated, timeout_ms=10000, want_model=True, len_terms=(), m
         if r == z3.unsat:
             return Result("proved", seconds=time.time() - t0, ninst=len(insts))
         stage1 = "sat-after-instantiation" if r == z3.sat else "unknown"
-    for bound in (2, 4, 8):
+    # refutation: with every list length <= B the quantifiers are finite conjunctions: expand them completely,
+    # solve, and validate the model (every Forall at every index tuple within its bounds)
+    for bound in (2, 4):
         s2 = _mk_solver(timeout_ms)
         for f in base:
             s2.add(f)
-        for f in insts:
-            s2.add(f)
         for lt in len_terms:
             s2.add(lt <= bound)
+        nums = [z3.IntVal(c) for c in range(0, bound + 1)]
+        for fa in fas:
+            for tp in itertools.product(*([nums] * fa.n)):
+                s2.add(fa.inst(*tp))
         rounds = 0
-        while rounds < max_rounds:
+        while rounds < 6:
             rounds += 1
             r = s2.check()
             if r != z3.sat:
@@ -416,12 +420,15 @@ def solve(hyps, goal_negated, timeout_ms=10000, want_model=True, len_terms=(), m
             try:
                 bad = validate_model(m, fas, enum_cap=bound + 3)
             except ModelTooLarge:
-                break
+                # a bound that is not a list length (e.g. a position) exceeded the cap: constrain and retry
+                for fa in fas:
+                    for bt in fa.bounds:
+                        s2.add(bt <= bound + 1)
+                continue
             if not bad:
                 return Result("refuted", model=m, seconds=time.time() - t0, rounds=rounds, ninst=len(insts))
-            for b in bad:
-                s2.add(b)
-                insts.append(b)
+            for bd in bad:
+                s2.add(bd)
     if mode == "prove":
         s3 = _mk_solver(timeout_ms)
         for f in base:
